@@ -36,7 +36,7 @@ def program(rng, nops, uni):
         elif r < 0.52: sc.append("age %d [%s]" % (h, ",".join(str(rng.randrange(uni + 2)) for _ in range(rng.randrange(1, 6)))))
         elif r < 0.57: sc.append("layout %d" % h)
         elif r < 0.62: sc.append("len %d" % h)
-        elif r < 0.67: sc.append(rng.choice(["slice %d", "string %d"]) % h)
+        elif r < 0.67: sc.append(rng.choice(["slice %d", "string %d", "stringx %d"]) % h)
         elif r < 0.72: sc.append("range %d %d" % (h, rng.randrange(-1, 5)))
         elif r < 0.78: sc.append("%s %d %d" % (rng.choice(["addset", "removeset"]), h, g))
         elif r < 0.82: sc.append("product %d %d" % (h, g))
